@@ -420,6 +420,49 @@ def check_meta(sub: Subject, ref: Reference, rng, acc, sample=6):
             acc.count(f"meta_reads.{how}")
             if set(m.keys()) != set(want) or len(m) != len(want) or set(iter(m)) != set(want):
                 return "meta-keys", f"{p} ({how} handle): meta.keys() = {sorted(m.keys())}, attached {sorted(want)}"
+            # items()/values(): one record per attached object, naming its schema (resolved version) and the node that holds it
+            its = dict(m.items())
+            vals = list(m.values())
+            if set(its) != set(want) or len(vals) != len(want):
+                return "meta-items", f"{p} ({how} handle): items() {sorted(its)} / {len(vals)} values, attached {sorted(want)}"
+            for name, sm in its.items():
+                ver = want[name][1]
+                if sm.schema.name != name or tuple(sm.schema.version) != tuple(ver):
+                    return "meta-items", f"{p}: items()[{name}] names schema {sm.schema}, stored as {name} {ver}"
+                if sm.to_path() not in sub.raw or not any(v.uuid == sm.uuid for v in vals):
+                    return "meta-items", f"{p}: items()[{name}] points to {sm.to_path()} which is not in the container"
+            # query at the node: '' lists everything; (name, version) in all argument forms lists the attached objects that are
+            # instances of it or of a child schema, compatible version
+            everything = sorted(str(r) for r in m.query())
+            if everything != sorted(str(sm.schema) for sm in vals):
+                return "meta-query", f"{p}: meta.query() lists {everything}, attached {sorted(str(sm.schema) for sm in vals)}"
+            if "" in m or ("", None) in m:
+                return "meta-contains", f"{p}: '' in meta is True"
+            acc.count("meta_query_forms")
+            for name, (_, ver, i, over) in want.items():
+                cls, obj = stored_obj(name, ver, i, over)
+                for anc in schemas.parent_path(name, ver):
+                    av = tuple(anc.version)
+                    expect = {str(schemas.PluginRef(name=n2, version=v2)) for n2, (_, v2, _, _) in want.items()
+                              if any(a.name == anc.name and tuple(a.version)[0] == av[0] and av[1] >= tuple(a.version)[1] for a in schemas.parent_path(n2, v2))}
+                    # (objects stored under the newest compatible version: a request for av is served by stored minor <= av.minor?? no:
+                    #  compatibility is judged as in brute_query: same major, requested minor >= stored minor)
+                    forms = {"name+version": lambda: m.query(anc.name, av), "tuple": lambda: m.query((anc.name, av)),
+                             "ref": lambda: m.query(schemas.PluginRef(name=anc.name, version=av))}
+                    if tuple(schemas.get(anc.name, av).Plugin.version) == av:  # (get() hands out the newest compatible class)
+                        forms["class"] = lambda: m.query(schemas.get(anc.name, av))
+                    for fname, fn in forms.items():
+                        got = [str(r) for r in fn()]
+                        if len(got) != len(set(got)) or set(got) != expect:
+                            return "meta-query", f"{p}: meta.query({anc.name},{av}) [{fname} form] = {sorted(got)}, brute force {sorted(expect)}"
+                    for fname, arg in (("reference", schemas.PluginRef(name=anc.name, version=av)), ("(name, None)", (anc.name, None)),
+                                       ("(name, version)", (anc.name, av)), ("class", schemas.get(anc.name, av))):
+                        try:
+                            inside = arg in m
+                        except Exception as e:
+                            return "meta-contains-raised", f"{p}: `{fname} form of {anc.name} in meta` raised {type(e).__name__}: {e}"
+                        if not inside:
+                            return "meta-contains", f"{p}: {fname} form of '{anc.name}' not in meta although attached"
             for name, (_, ver, i, over) in want.items():
                 cls, obj = stored_obj(name, ver, i, over)
                 if name not in m or (name, ver) not in m or cls not in m:
@@ -489,6 +532,13 @@ def check_queries(sub: Subject, ref: Reference, rng, acc, names, nstarts=3):
                          ("node.metador.query", lambda: node.metador.query(name, ver))]
                 if start == "/":
                     forms.append(("container.query", lambda: mc.metador.query(name, ver)))
+                if ver is not None:  # the other documented argument forms of (schema, version)
+                    forms.append(("node.metador.query((name, version))", lambda: node.metador.query((name, ver))))
+                    forms.append(("node.metador.query(PluginRef)", lambda: node.metador.query(schemas.PluginRef(name=name, version=ver))))
+                    if any(tuple(r.version) == tuple(ver) for r in schemas.versions(name)):
+                        kls = schemas.get(name, ver)  # (hands out the NEWEST installed class compatible with the request)
+                        if tuple(kls.Plugin.version) == tuple(ver):
+                            forms.append(("node.metador.query(class)", lambda: node.metador.query(kls)))
                 for fname, fn in forms:
                     try:
                         res = [x.name for x in fn()]
